@@ -29,6 +29,9 @@ func (b *Body) appendItem(c nodeContent) *node {
 	b.ensureTrailingNewline()
 	nn := b.children.Append(c)
 	b.items.Add(nn)
+	// An item that was loaded as the last line of a file without a final
+	// newline, removed and is now appended here does not end its own line.
+	b.ensureTrailingNewline()
 	return nn
 }
 
